@@ -1976,6 +1976,10 @@ vinsertpair(VGROUP *vg,  /* IN: vgroup struct */
     /* clear error stack */
     HEclear();
 
+    /* the number of members is a 16-bit quantity, in memory and in the file */
+    if (vg->nvelt >= 65535)
+        HGOTO_ERROR(DFE_EXCEEDMAX, FAIL);
+
     if ((int)vg->nvelt >= vg->msize) {
         vg->msize *= 2;
 
